@@ -106,7 +106,7 @@ def spec_of(pname, ty):
     return (t, pname, t, None)
 
 
-def gen_trait(root, notes):
+def gen_trait(root, notes, server=False):
     ms = parse_methods(root)
     L = []
     L.append('// ---- model of trait FileSystem, generated from %s (%d methods)' % (FILE, len(ms)))
@@ -161,6 +161,9 @@ def gen_trait(root, notes):
         if mut_ctx:
             ens.append('res is Ok ==> *final(ctx) == self.ctx_%s()' % name)
             ens.append('res is Err ==> *final(ctx) == *old(ctx)')
+        if server and ret and ret.startswith('io::Result'):
+            # T8: an error returned by a filesystem carries a positive errno
+            ens.append('res is Err ==> err_ok(res->Err_0)')
         if name == 'read':
             # T8 (DESIGN section 8): a filesystem's read returns the number of bytes it put into the writer, and only appends
             ens.append('zw_appended(*old(w), *final(w), res)')
